@@ -11,6 +11,7 @@ from .exceptions import (
     InvalidInputError,
 )
 from .geometry import HorizontalAlignmentEnum, Layout
+from .utils import split_lines
 
 # A WebVTT timing line has both start/end times and layout related settings
 # (referred to as 'cue settings' in the documentation)
@@ -62,7 +63,7 @@ class WebVTTReader(BaseReader):
         if not isinstance(content, str):
             raise InvalidInputError("The content is not a unicode string.")
 
-        caption_set = CaptionSet({lang: self._parse(content.splitlines())})
+        caption_set = CaptionSet({lang: self._parse(split_lines(content))})
 
         if caption_set.is_empty():
             raise CaptionReadNoCaptions("empty caption file")
